@@ -26,6 +26,9 @@ type TypeOpts struct {
 	NumStructs      int
 	TagRich         bool
 	Omitempty       bool
+	// SameNameInSub: a sub-package declares an enum / struct with the same local
+	// name as a root type (C10 quantifier); TypeScript cannot tell them apart
+	SameNameInSub bool
 	// NoRoot: place the module outside any go/src/ directory (affects the Dart linker only)
 }
 
@@ -51,6 +54,7 @@ func RandomTypeOpts(r *rand.Rand) TypeOpts {
 		NumStructs:      3 + r.Intn(5),
 		TagRich:         p(0.6),
 		Omitempty:       p(0.25),
+		SameNameInSub:   p(0.15),
 	}
 }
 
@@ -70,12 +74,15 @@ type gen struct {
 	subTypes []*Decl // sub-package types usable from the root
 	generics []*Decl
 	insts    []*TExpr // generic instantiations usable as field types
+	subNames map[string]bool
 }
 
 var typeStems = []string{"Item", "Order", "Client", "Invoice", "Ticket", "Parcel", "Wagon", "Garden", "Planet", "Route", "Sensor", "Ledger", "Recipe", "Module", "Window", "Bridge", "Castle", "Dragon", "Engine", "Forest", "Harbor", "Island", "Jungle", "Kernel", "Lantern", "Meadow", "Needle", "Orchard", "Pillar", "Quarry", "Rocket", "Saddle", "Tunnel", "Valley", "Walrus", "Yacht", "Zipper", "Anchor", "Basket", "Candle"}
 var fieldStems = []string{"Name", "Count", "Owner", "Label", "Size", "Weight", "Price", "Code", "Rank", "Level", "Score", "Notes", "Title", "Total", "Start", "Stop", "Width", "Depth", "Ratio", "Flag", "Kind_", "Group", "Batch", "Slot", "Phase", "Index", "Value", "Extra", "Detail", "Origin"}
 var enumStems = []string{"Color", "Status", "Mode", "Phase", "Tier", "Shade", "Grade", "Stage", "Rating", "Role", "Access", "Unit", "Climate", "Flavor", "Season"}
 var memberWords = []string{"Red", "Green", "Blue", "Open", "Closed", "Pending", "Low", "High", "Mid", "First", "Second", "Third", "North", "South", "East", "West", "Alpha", "Beta", "Gamma", "Delta"}
+var subEnumStems = []string{"Trend", "Gauge", "Genre", "Motif", "Caste", "Tempo"}
+var subTypeStems = []string{"Crate", "Depot", "Fleet", "Grain", "Hinge", "Ingot", "Joint", "Knoll", "Latch", "Mantle", "Nozzle", "Outpost", "Pulley", "Quiver", "Rafter", "Spigot"}
 var unionStems = []string{"Shape", "Shade2", "Event", "Action", "Payload", "Block", "Node", "Expr", "Message", "Command", "Figure", "Field2", "Asset", "Signal", "Token"}
 
 func (g *gen) fresh(base string) string {
@@ -158,14 +165,22 @@ func (g *gen) makeSubs() {
 		}
 		sub := &Pkg{Name: name, Path: ModulePath + "/" + dir, Dir: dir}
 		g.p.Subs = append(g.p.Subs, sub)
-		sg := &gen{r: g.r, p: g.p, root: sub, opts: g.opts, names: map[string]bool{}}
+		if g.subNames == nil {
+			g.subNames = map[string]bool{}
+		}
+		sg := &gen{r: g.r, p: g.p, root: sub, opts: g.opts, names: g.subNames} // names unique across the sub-packages of a program
 
 		// an enum, sometimes named like a root enum will be
-		en := sg.enumDecl(enumStems[i%3], "int", i%2 == 0)
+		enumStem := subEnumStems[g.r.Intn(len(subEnumStems))]
+		if g.opts.SameNameInSub && i == 0 {
+			enumStem = enumStems[0] // the root's first enum takes the same name (see makeEnums)
+			g.p.Feature("same-enum-name-in-sub-package")
+		}
+		en := sg.enumDecl(enumStem, "int", i%2 == 0)
 		en.File = "types.go"
 		sub.Decls = append(sub.Decls, en)
 		en.Pkg = sub
-		st := &Decl{Name: sg.fresh(typeStems[10+g.r.Intn(20)]), Pkg: sub, File: "types.go", Kind: DStruct}
+		st := &Decl{Name: sg.fresh(subTypeStems[g.r.Intn(len(subTypeStems))]), Pkg: sub, File: "types.go", Kind: DStruct}
 		st.Fields = []*Field{
 			{Name: "Ref", Type: Basic("int")},
 			{Name: "Kind", Type: Ref(en)},
@@ -352,7 +367,11 @@ func (g *gen) makeEnums() {
 		if (under == "bool" || under == "float64") && !g.pr(0.3) {
 			under = "int"
 		}
-		d := g.add(g.enumDecl(g.pick(enumStems), under, i == 0))
+		stem := enumStems[1+g.r.Intn(len(enumStems)-1)]
+		if g.opts.SameNameInSub && i == 0 && g.opts.NumSubs > 0 {
+			stem = enumStems[0]
+		}
+		d := g.add(g.enumDecl(stem, under, i == 0))
 		for t := range d.Tags {
 			g.p.Feature("enum:" + t)
 		}
